@@ -573,6 +573,35 @@ bool HookInject() {
   return true;
 }
 
+}  // namespace
+
+// A harness-declared preemption point inside plain code (e.g. right after the harness pool made a job visible to its
+// workers): taken only in tail-split executions, which are judged by the abstract monitors only.
+void SplitPoint() {
+  auto& g = G();
+  if (!g.active || g.tail_budget <= 0 || g_in_hook) {
+    return;
+  }
+  auto* st = Cur();
+  if (st == nullptr || !st->tracked || st->ambient != 0) {
+    return;
+  }
+  bool split = false;
+  {
+    HookGuard hg;
+    static const std::vector<std::string> kNames{"go", "split"};
+    split = Choose(2, kNames, "tail") == 1;
+    if (split) {
+      --g.tail_budget;
+    }
+  }
+  if (split) {
+    yaclib::fault::Scheduler::RescheduleCurrent();
+  }
+}
+
+namespace {
+
 ProcState* ProcFor(std::uint64_t fid) {
   auto& g = G();
   auto it = g.by_fid.find(fid);
